@@ -14,6 +14,9 @@ pub enum ForeignKind {
     OtherFixedPort,
     OtherProtocol,
     NoMagic,
+    /// Dublin/IPv6: someone else's datagram to the same ports whose payload is shorter than
+    /// the marker (empty, or a proper prefix of it).
+    ShortNoMagic,
     OtherTraceId,
 }
 
@@ -224,6 +227,7 @@ impl World {
                     ForeignKind::OtherFixedPort,
                     ForeignKind::OtherProtocol,
                     ForeignKind::NoMagic,
+                    ForeignKind::ShortNoMagic,
                 ],
                 _ => &[ForeignKind::OtherDestination, ForeignKind::OtherFixedPort, ForeignKind::OtherProtocol],
             };
@@ -272,6 +276,19 @@ impl World {
                         fix_l4_checksum(&mut f);
                     }
                 }
+                ForeignKind::ShortNoMagic => {
+                    if f.len() >= l4 + 8 + 6 {
+                        let n = self.tape.draw(6) as usize;
+                        f.truncate(l4 + 8 + n);
+                        if self.tape.chance(300) && n > 0 {
+                            f[l4 + 8 + n - 1] ^= 0x01;
+                        }
+                        let udp_len = (8 + n) as u16;
+                        f[l4 + 4..l4 + 6].copy_from_slice(&udp_len.to_be_bytes());
+                        f[4..6].copy_from_slice(&udp_len.to_be_bytes());
+                        fix_l4_checksum(&mut f);
+                    }
+                }
                 ForeignKind::OtherTraceId => {
                     let old = u16::from_be_bytes([f[l4 + 4], f[l4 + 5]]);
                     let mut new = old ^ (1 + self.tape.draw(0xfffe) as u16);
@@ -290,6 +307,7 @@ impl World {
                 ForeignKind::OtherFixedPort => "foreign.other-fixed-port",
                 ForeignKind::OtherProtocol => "foreign.other-protocol",
                 ForeignKind::NoMagic => "foreign.no-magic",
+                ForeignKind::ShortNoMagic => "foreign.short-no-magic",
                 ForeignKind::OtherTraceId => "foreign.other-trace-id",
             };
             self.deliver_forged(&f, RespClass::Foreign, as_target, note, None);
